@@ -434,11 +434,130 @@ def pipeline_items():
                 yield resname, present, partial_first
 
 
+# ----------------------------------------------------------------------------- through bin/martinize2
+
+MASS = {'H': 1, 'C': 12, 'N': 14, 'O': 16, 'S': 32, 'P': 31}      # the documented element masses of AttachMass
+CLI_FRAGMENTS = ['bta15-18', 'bta19-22', 'bta27-30', 'bta11-14', 'ala5']
+CLI_OPTIONS = {'default': [], 'elastic': ['-elastic'], 'martini22': ['-ff', 'martini22'], 'sep-posres': ['-sep', '-p', 'backbone']}
+
+
+def shipped_weights(to_ff, resname):
+    """atom name -> {bead: weight} read from the shipped Backward-style mapping file with a parser of my own: a bead listed k
+    times out of n gets k/n, a '!' entry gets 0."""
+    import glob
+    import os
+    base = os.path.join(common.REPO, 'vermouth', 'data', 'mappings')
+    for path in sorted(glob.glob(os.path.join(base, '**', '%s.charmm36*.map' % resname.lower()), recursive=True) +
+                       glob.glob(os.path.join(base, '**', '%s.*map' % resname.lower()), recursive=True)):
+        section, target, source, table = None, [], [], {}
+        for raw in open(path):
+            line = raw.split(';', 1)[0].strip()
+            if not line:
+                continue
+            if line.startswith('['):
+                section = line.strip('[] ').lower()
+                continue
+            if section == 'to':
+                target += line.split()
+            elif section == 'from':
+                source += line.split()
+            elif section == 'atoms':
+                tokens = line.split()
+                beads = tokens[2:]
+                real = [b for b in beads if not b.startswith('!')]
+                table[tokens[1]] = {b: real.count(b) / len(real) for b in set(real)}
+        if to_ff in target and 'charmm' in source:
+            return table
+    return None
+
+
+def cli_case(item, acc):
+    """Heavy-atom input through the real program: every particle of an inner residue must sit at the mean of the atoms the
+    shipped mapping assigns to it, weighted by mapping weight x element mass (the force fields set center_weight "mass")."""
+    import os
+    import shutil
+    import tempfile
+    from mc import cli, readers
+    from props import c11
+    name, opts, motion = item
+    case = {'layer': 'e2e-cli', 'input': name, 'options': opts, 'motion': list(motion)}
+    to_ff = 'martini22' if opts == 'martini22' else 'martini3001'
+    atoms = [dict(a) for a in c11.load_atoms(name) if a['element'] != 'H']
+    rot, trans = ROTS[motion[0]], TRANS[motion[1]]
+    for atom in atoms:
+        moved = move(atom['xyz'], rot, tuple(t / 10.0 for t in trans))
+        atom['xyz'] = tuple(round(v, 3) for v in moved)
+    base = tempfile.mkdtemp(prefix='verif_c09cli_', dir='/dev/shm' if os.path.isdir('/dev/shm') else None)
+    try:
+        with open(os.path.join(base, 'in.pdb'), 'w') as handle:
+            handle.write(c11.render_pdb(atoms))
+        res = cli.run_inprocess(['-f', 'in.pdb', '-x', 'cg.pdb', '-o', 'topol.top', '-maxwarn', '100'] + CLI_OPTIONS[opts], base)
+        if res['exit'] != 0:
+            acc.case(outcome=('cli-exit', res['exit']))
+            acc.violation('c09:e2e-cli-run-failed', 'martinize2 %r on %s exits %r\n%s' % (CLI_OPTIONS[opts], name, res['exit'], res['stderr'][-400:]), case)
+            return
+        beads = readers.read_pdb(open(os.path.join(base, 'cg.pdb')).read())['atoms']
+    finally:
+        shutil.rmtree(base, ignore_errors=True)
+    residues = []
+    for atom in atoms:
+        if not residues or residues[-1][0] != atom['res']:
+            residues.append((atom['res'], atom['line'][17:20].strip(), []))
+        residues[-1][2].append(atom)
+    problems = []
+    checked = 0
+    for ridx, (res, resname, members) in list(enumerate(residues))[1:-1]:          # inner residues: no terminal modification
+        table = shipped_weights(to_ff, resname)
+        if table is None or any(atom['name'].strip() not in table for atom in members):
+            continue      # input atom names that are not the force field's own (ILE CD1): which table line applies is RepairGraph's business (C04)
+        if not any(int(b['resid']) == ridx + 1 and b['resname'].strip() == resname for b in beads):
+            continue      # the residue came out under another name (protonation variants of HIS): another table applies
+        sums = {}
+        for atom in members:
+            aname = atom['name'].strip()
+            for bead, weight in table.get(aname, {}).items():
+                w = weight * MASS.get(atom['element'], 30)
+                entry = sums.setdefault(bead, [0.0, [0.0, 0.0, 0.0]])
+                entry[0] += w
+                for c in range(3):
+                    entry[1][c] += w * atom['xyz'][c]
+        for bead, (total, vec) in sorted(sums.items()):
+            if total == 0:
+                continue
+            want = [v / total for v in vec]
+            got = [b for b in beads if int(b['resid']) == ridx + 1 and b['atomname'].strip() == bead and b['resname'].strip() == resname]
+            if len(got) != 1:
+                problems.append(('c09:e2e-cli-particle-missing', 'residue %s%d: %d particles named %s in the output' % (resname, res[1], len(got), bead)))
+                break
+            have = [float(got[0]['x']), float(got[0]['y']), float(got[0]['z'])]
+            checked += 1
+            if max(abs(h - w) for h, w in zip(have, want)) > 2.1e-3:
+                problems.append(('c09:e2e-cli-not-at-weighted-mean', '%s of residue %s%d is written at %r (A); the heavy atoms the shipped mapping assigns to it, '
+                                 'weighted by mapping weight x element mass, put it at %r' % (bead, resname, res[1], have, [round(w, 3) for w in want])))
+                break
+        if problems:
+            break
+    acc.case(nontrivial=checked > 0, outcome=('clipos', name, opts, checked, len(problems)))
+    for sig, desc in problems[:1]:
+        acc.violation(sig, desc, case)
+
+
+def cli_items(tier):
+    motions = [(0, 0), (7, 1)] if tier == 'quick' else [(0, 0), (7, 1), (13, 2), (20, 1)]
+    for name in CLI_FRAGMENTS:
+        for opts in CLI_OPTIONS:
+            for motion in motions:
+                yield name, opts, motion
+
+
 def work(task):
     common.bind_repo()
     kind, items = task
     acc = Acc()
     for item in items:
+        if kind == 'cli':
+            cli_case(item, acc)
+            continue
         if kind == 'file':
             file_case(item, acc)
         elif kind == 'pipeline':
@@ -467,12 +586,19 @@ def run_layer(ctx):
     for part in common.pmap(work, [('pipeline', chunk) for chunk in common.chunked(items, 3)]):
         acc += part
     ctx.layer('rebuilt-atoms-never-contribute', acc)
+    items = list(cli_items(ctx.tier))
+    acc = Acc()
+    for part in common.pmap(work, [('cli', chunk) for chunk in common.chunked(items, 3)]):
+        acc += part
+    ctx.layer('positions-written-by-martinize2', acc)
 
 
 def replay(case):
     common.bind_repo()
     acc = Acc()
-    if case['layer'] == 'e2e-pipeline':
+    if case['layer'] == 'e2e-cli':
+        cli_case((case['input'], case['options'], tuple(case['motion'])), acc)
+    elif case['layer'] == 'e2e-pipeline':
         pipeline_case((case['resname'], tuple(case['present']) if isinstance(case['present'], list) else case['present'],
                        case['partial_first']), acc)
     elif case['layer'] == 'e2e-file':
